@@ -29,13 +29,18 @@ def pda_is_push_pop(P: PDA) -> bool:
     return all([P.is_push_pop_transition(p, a, u, q, v)  for (p, a, u), Q1 in delta.items() for (q, v) in Q1])
 
 
-# TODO: implement a more robust solution
 def fresh_symbol(Sigma: Set[str], symbols: Iterable[str]) -> Symbol:
     for s in symbols:
         symbol = Symbol(s)
         if symbol not in Sigma:
             return symbol
-    raise RuntimeError('Could not find a fresh symbol in {}'.format(symbols))
+    # all preferred symbols are taken: use the first unused character of a range of symbols
+    index = 0x2460
+    while True:
+        symbol = Symbol(chr(index))
+        if symbol not in Sigma:
+            return symbol
+        index = index + 1
 
 
 def pda_to_one_accepting_state_in_place(P: PDA) -> None:
@@ -69,7 +74,7 @@ def pda_to_accept_on_empty_stack_in_place(P: PDA) -> None:
     F = P.F
     epsilon = P.epsilon
 
-    stack_bottom = fresh_symbol(Gamma, '$@#*&!?')
+    stack_bottom = fresh_symbol(Gamma | {epsilon}, '$@#*&!?')
     Gamma.add(stack_bottom)
 
     # define a new initial state
@@ -105,8 +110,7 @@ def pda_to_push_pop_in_place(P: PDA) -> None:
     pda_to_one_accepting_state_in_place(P)
 
     # add intermediate states to enforce push/pop transitions
-    dummy = Symbol('∅')
-    assert dummy not in Gamma # TODO: implement a robust solution
+    dummy = fresh_symbol(Gamma | {epsilon}, '∅')
     Gamma.add(dummy)
     delta1 = defaultdict(lambda: set([]))
     for (p, a, u), Q1 in delta.items():
